@@ -101,7 +101,11 @@ func (m *C04) After(w *world.World, a *world.Action) {
 	switch {
 	case a.Kind == "user-nft-mint":
 		for _, c := range ch {
-			if c.before != "" || c.after == "" || c.after == esc || world.IsVoucherClass(c.class) {
+			if world.IsVoucherClass(c.class) {
+				m.bad(w, "voucher-minted-without-delivered-packet", map[string]string{"by": "user-mint"}, fmt.Sprintf("a user minted %+v straight into a voucher class", c))
+				return
+			}
+			if c.before != "" || c.after == "" || c.after == esc {
 				m.bad(w, "unexpected-nft-change", map[string]string{"step": a.Kind}, fmt.Sprintf("%+v", c))
 				return
 			}
